@@ -135,6 +135,27 @@ def run(chk, replay=None):
                     else:
                         add_tails(law, n, float(rr.quantile[0]), float(rr.quantile[1]), prm)
                 chk.nontrivial('big|%s|%d|%s|%s' % (total, n, dtype, scale))
+    # forecasts whose rate array holds whole numbers (an integer dtype) scaled by a non-integer factor: the total is the
+    # scaled sum whatever the storage type of the rates
+    for factor in (0.5, 0.25, 2.5):
+        for dtype in ('int64', 'int32', 'float64'):
+            data = numpy.array([[12, 3], [20, 1], [4, 0]], dtype=dtype)
+            fci = B.forecast(numpy.array(data, dtype=float), dtype=dtype)
+            fci.scale(factor)
+            mean = 40.0 * factor
+            got_total = guarded(lambda: float(fci.event_count))
+            chk.count()
+            if isinstance(got_total, Raised) or abs(got_total - mean) > 1e-12 * mean:
+                chk.violation('poisson:scaled total of an integer-typed forecast', {'dtype': dtype, 'factor': factor, 'got': repr(got_total), 'expected': mean})
+                continue
+            for n in (0, int(mean), int(mean) + 7):
+                r = guarded(pe.number_test, fci, catalog_with(n))
+                chk.count()
+                if isinstance(r, Raised):
+                    chk.violation('poisson:raised', {'dtype': dtype, 'factor': factor, 'n': n, 'err': repr(r)})
+                else:
+                    add_tails('poisson', n, float(r.quantile[0]), float(r.quantile[1]), {'mean': mean, 'scale': factor, 'dtype': dtype})
+            chk.nontrivial('intscale|%s|%s' % (dtype, factor))
     # the same forecast object evaluated, rescaled and evaluated again: the law must follow the current total
     for total in (0.5, 6.0, 250.0):
         for n in (0, 3, 9):
